@@ -188,8 +188,9 @@ impl<'a> Tokenizer<'a> {
 
                     let octal = &self.input[start..self.index];
 
-                    let val = u8::from_str_radix(octal, 8).unwrap();
-                    val as char
+                    // Up to three octal digits: at most 0o777, always a valid char.
+                    let val = u32::from_str_radix(octal, 8).unwrap();
+                    std::char::from_u32(val).unwrap_or(c)
                 }
 
                 // \xhh, \uhhhh, \Uhhhhhhhh
